@@ -330,6 +330,12 @@ def structure_rules(run, model):
     # ---- property accessor matching (3 rows): func == value.X  =>  base accessor X / replaced accessor X
     nfp = meta.namespace_fns(model)["property"]
     n_rows = 0
+    role_of_local = {}
+    for sub in ast.walk(nfp.fi.node):
+        if isinstance(sub, ast.Call) and isinstance(sub.func, ast.Name) and sub.func.id == "property":
+            for kw in sub.keywords:
+                if kw.arg in ("fget", "fset", "fdel") and isinstance(kw.value, ast.Name):
+                    role_of_local[kw.value.id] = kw.arg
     for st in ast.walk(nfp.fi.node):
         if isinstance(st, ast.If) and isinstance(st.test, ast.Compare) and len(st.test.ops) == 1 and isinstance(st.test.ops[0], ast.Eq):
             r = st.test.comparators[0]
@@ -343,7 +349,7 @@ def structure_rules(run, model):
                     okr = val.attr == acc
                     what = "the base's `%s` is looked up for the accessor `%s`" % (val.attr, acc)
                 else:
-                    okr = isinstance(tgt, ast.Name) and tgt.id == acc
+                    okr = isinstance(tgt, ast.Name) and role_of_local.get(tgt.id) == acc
                     what = "the new checker replaces `%s` for the accessor `%s`" % (src_of(tgt), acc)
                 run.check(okr, "C04.accessor", "%s:%s@%d" % (nfp.fi.qual, acc, n_rows), "role-preserving accessor matching", what + ": getter, setter and deleter contracts would be mixed up", nfp.fi.loc(st), None, first_line(st))
     if n_rows < 6:
